@@ -82,6 +82,14 @@ def gen(rng, tier):
             if ln <= 3:
                 out.append((line(32, 0, ["Z" + hx(b"[" + t)]), {"kind": "small-scope", "reuse": False}))
                 out.append((line(32, 1, ["Z" + hx(b'{"k":' + t)]), {"kind": "small-scope", "reuse": False}))
+    # token buffer edges: a plain run of every length 0..140 followed by pairs / runs of the characters that are appended to
+    # the scratch buffer one at a time (escapes in strings and names, stars at the end of a comment, literal letters)
+    for L in range(0, 141):
+        run = b"a" * L
+        for tail in (b'\\"\\"', b"\\\\\\/", b"\\n\\t\\b", b"\\u00e9\\\""):
+            out.append((line(32, 0, ["Z" + hx(b'"' + run + tail + b'"')]), {"kind": "buffer-edge", "reuse": False}))
+        out.append((line(32, 1, ["Z" + hx(b'{"' + run + b'\\"\\"":1}')]), {"kind": "buffer-edge", "reuse": False}))
+        out.append((line(32, 0, ["Z" + hx(b"/*" + run + b"***/ 1")]), {"kind": "buffer-edge", "reuse": False}))
     # an invalid length argument (len < -1) is refused with the size error, leaves the caller's locale alone and keeps
     # nothing; the parser is reusable after a reset
     for ln in (-2, -3, -100, -2147483647, -2147483648):
